@@ -115,7 +115,7 @@ SnapMatches(fam, L, sn, st) ==
       codes == Split(sn.f, ",")
   IN /\ Len(codes) = Len(names)
      /\ \A i \in 1..Len(names) : codes[i] = st.f[names[i]]
-     /\ (IF sn.names = "" THEN {} ELSE Range(Split(sn.names, ","))) = st.names
+     /\ (sn.names = "~" \/ (IF sn.names = "" THEN {} ELSE Range(Split(sn.names, ","))) = st.names)
 StepsVerdict(ev) ==
   LET r == Decode(ev.fam, ev.lvl, ev.s)
       toks == TokensOf(ev.fam, ev.s)
